@@ -226,6 +226,25 @@ func (w *World) importKeepingGenesisTime(raw []byte, height int64) {
 	}
 }
 
+// importLater: a chain is restarted from an export some time after the export was taken (the
+// operator sets genesis_time to the agreed restart time). The import has to succeed then as well.
+func (w *World) importLater(raw []byte, height int64) {
+	w.Probe("c15.import-later")
+	later := w.Now.Add(2 * time.Hour)
+	n := &Node{Idx: 103, Cfg: DefaultRefCfg(), DB: newLeakDB(dbm.NewMemDB()), AppOpts: appOptsOf(&w.T.Knobs)}
+	n.Open()
+	req := abci.RequestInitChain{Time: later, ChainId: ChainID, ConsensusParams: InitChainReq(nil).ConsensusParams, Validators: []abci.ValidatorUpdate{}, AppStateBytes: raw, InitialHeight: height}
+	p, _ := safely(func() { n.App.InitChain(req) })
+	if p == "" {
+		return
+	}
+	site := importSite(p)
+	if strings.Contains(p, "expiration is before current block time") {
+		site = "fee-allowance-expired-since-export"
+	}
+	w.Violate("C15", "C15/import-fails-when-restarted-later/"+site, "InitChain from the export of height %d, two hours after it was taken, panics: %s", w.Ref.Height, trunc(p, 300))
+}
+
 // takeFork exports the reference node and builds the imported nodes. Only armed for C15.
 func (w *World) takeFork() {
 	if w.armedC08 {
@@ -292,6 +311,7 @@ func (w *World) takeFork() {
 	}
 	w.Fork = &Fork{B: b, AtHeight: a.Height}
 	w.importKeepingGenesisTime(raw, expA.height)
+	w.importLater(raw, expA.height)
 	bctx := b.App.BaseApp.NewContext(false, MakeHeader(expA.height, w.Now, nil))
 	actx := w.CCtx()
 	// (3) observable equality of the four modules
